@@ -182,6 +182,13 @@ class Check:
         self.transitions = 0
         self.traces = 0
         self.skipped = {}
+        # replay files of earlier runs of this property are stale
+        import glob
+        for f in glob.glob(os.path.join(REPL, pid + '-*.json')):
+            try:
+                os.remove(f)
+            except OSError:
+                pass
 
     # coverage ----------------------------------------------------------
     def add_tlc(self, res):
